@@ -18,10 +18,17 @@ Further streams ("for every total Kripke structure and every formula" has no siz
     F in {None, [], [set()], [{not a state}], sets};
   * states that are plain objects with identity __eq__ (Site: address hash, SiteH: int hash): elements of a result must BE K's objects;
   * one or / and node with 520-1300 operands (object and text) on small typed structures (model) and on a long ring (closed form);
-  * build-ask-drop loops: many short-lived structures of equal size asked the same one or two formulas (model answer per round)."""
+  * build-ask-drop loops: many short-lived structures of equal size asked the same one or two formulas (model answer per round);
+  * the public-API channel (api_cases): atoms whose names hold braces / backslashes / percent signs / blanks (format-string and
+    escape-sequence shaped; exact class: their printed form cannot be that of another formula), as objects and as QUOTED text
+    ("..."; identifier atoms randomly quoted too); CTL* formulas in which the same quantified subformula occurs twice (the fallback
+    fresh name); structures that are instances of a Kripke SUBCLASS (own constructor signature / keyword-only / extra attribute);
+    structures relabelled through replace_labelling_function with a PARTIAL dict (only some states listed, with or without a ghost
+    key); structures GROWN after construction with add_node / add_edge (new states never labelled, also from Kripke()): regression
+    of fix F13.  All through the main pipeline (contract, caller mutation, repeated call, model)."""
 from common import *
 from mccheck import *
-from props_c07 import ftext, snap_kripke, internal_ids, shared_parser, in_logic, n_temporal, MODEL_F, guarded, TIMEOUTS, Site, SiteH
+from props_c07 import TEXTOP, ftext, snap_kripke, internal_ids, shared_parser, in_logic, n_temporal, MODEL_F, guarded, TIMEOUTS, Site, SiteH
 LEVEL = 'proof'
 
 LOGICS = ('CTL', 'LTL', 'CTLS')
@@ -32,6 +39,36 @@ EXOTIC_ATOMS = ['or', 'A', 'true', 'not p', 'E', 'U', 'not', '(p or q)', 'A(G(p)
 OPLIKE = ['or', 'A', 'true', 'not p', 'E', 'U', 'X', 'and', 'false', '(p or q)', 'A(G(p))', 'not', 'EX p', '-->']
 FAIRLIKE = ['fair', 'fair0', 'fair1', 'fair2']
 NONSTR = [0, 1, -1, (), ('p',), ('p', 'q'), 2.5, frozenset(['p']), (1, (2, 3))]
+
+# atom names shaped like format strings / escape sequences / printf directives; none holds ( ) [ ] " or starts with 'not ' or is
+# reserved or fair-like: the printed form of such an atom is the printed form of no other formula (outside KF-print-a / KF-C03-a /
+# KF-fair-capture), so EXACT answers are compared.  None ends in an odd number of backslashes (not writable as "..." text).
+QUOTED_ATOMS = ['{busy}', '{}', 'x in {1,2}', '{0}', '{p}', 'a{b', '}{', '{{}}', '{0!r}', '{:d}', '{q', 'p}',
+                '\\xi', '\\phi', '\\nu', 'a\\tb', '\\\\', 'C:\\new\\x', '\\u00', '\\N', '\\0', "\\'", '\\x4', 'p\\q',
+                '100%', '%s', '%(p)s', '%d items', '%', '%%', 'x=1', 'a.b', 'a-b', "it's", '$x', '#1', '\xe9{', 'p q', 'p,q', '{%s}']
+
+
+def is_quotable(a):
+    """can be written as "..." text: no double quote, no line break, no trailing odd run of backslashes"""
+    return '"' not in a and '\n' not in a and '\r' not in a and (len(a) - len(a.rstrip('\\'))) % 2 == 0
+
+
+def qtext(f, quote_all=False):
+    """concrete syntax like props_c07.ftext, but atoms that are not plain non-reserved identifiers (with quote_all: every atom) are
+    written as quoted strings"""
+    t = f[0]
+    if t in ('true', 'false'):
+        return t
+    if t == 'ap':
+        return f[1] if (is_good_atom(f[1]) and not quote_all) else '"%s"' % f[1]
+
+    def w(g):
+        return qtext(g, quote_all) if g[0] in ('true', 'false', 'ap') else '(' + qtext(g, quote_all) + ')'
+    op = TEXTOP.get(t, t)
+    if t in UNARY:
+        return op + ' ' + w(f[1])
+    return (' %s ' % op).join(w(g) for g in f[1:])
+
 
 FAMILIES = {
     'str': ['s0', 's1', 'a b', '', 'None', 'p', '\xe9t\xe9', '0', 'fair', '[E(X(p))]', 'or'],
@@ -293,18 +330,44 @@ def gen_case(rng, family=None, logic=None, cls=None, deep=None, mode=None, Fkind
             'relabel': rng.random() < 0.3, 'ctor': ctor or 'full'}
 
 
+def kripke_class(ctor):
+    """the class of the structure: Kripke itself or a SUBCLASS of it (a parametric model written by the caller).  An instance of a
+    subclass IS a Kripke structure; -> (class, function that builds an instance from S, S0, R, L)"""
+    from pyModelChecking.kripke import Kripke
+    if ctor == 'subclass-spec':
+        class Design(Kripke):                        # its own constructor signature: one positional description
+            def __init__(self, spec):
+                super(Design, self).__init__(S=spec[0], S0=spec[1], R=spec[2], L=spec[3])
+        return Design, lambda S, S0, R, L: Design((S, S0, R, L))
+    if ctor == 'subclass-kwonly':
+        class Design(Kripke):                        # keyword-only parameters
+            def __init__(self, *, states, init, trans, labelling):
+                super(Design, self).__init__(states, init, trans, labelling)
+        return Design, lambda S, S0, R, L: Design(states=S, init=S0, trans=R, labelling=L)
+    if ctor == 'subclass-attr':
+        class Design(Kripke):                        # Kripke's signature plus a required name kept as an attribute
+            def __init__(self, name, S=None, S0=None, R=None, L=None):
+                super(Design, self).__init__(S, S0, R, L)
+                self.name = name
+        return Design, lambda S, S0, R, L: Design('design', S, S0, R, L)
+    return Kripke, mk_py_kripke
+
+
 def build(case):
     states = [dec(s) for s in case['states']]
     ctor = case.get('ctor', 'full')
-    Ld = {states[int(i)]: [dec(x) for x in ls] for i, ls in case['labels'].items()}
-    if ctor == 'noargs' and not states:
+    grow = case.get('grow')
+    new = set(grow['new']) if grow else set()
+    old = [s for i, s in enumerate(states) if i not in new]          # the states the structure is CONSTRUCTED with
+    Ld = {states[int(i)]: [dec(x) for x in ls] for i, ls in case['labels'].items() if int(i) not in new}
+    if ctor == 'noargs' and not old:
         from pyModelChecking.kripke import Kripke
         K = Kripke()                                  # no state, no transition: every state (there is none) has a successor
     elif ctor == 'R-only':
         from pyModelChecking.kripke import Kripke     # states given by the transitions only (a total structure has no isolated state)
         K = Kripke(R=[(states[a], states[b]) for a, b in case['R']], L=Ld)
     else:
-        K = mk_py_kripke(list(states), [states[i] for i in case['S0']], [(states[a], states[b]) for a, b in case['R']], Ld)
+        K = kripke_class(ctor)[1](list(old), [states[i] for i in case['S0']], [(states[a], states[b]) for a, b in case['R']], Ld)
     if case.get('relabel'):
         # the labelling is (re)installed through the public replace_labelling_function: equal label sets become ONE shared set
         # object, and the caller's dict also carries entries for objects that are NOT states (a design-wide labelling dict)
@@ -315,6 +378,21 @@ def build(case):
         allab = set(a for ls in L.values() for a in ls)
         L[('#not-a-state', 1)] = set(allab) | {'p', 'q'}
         L['#ghost'] = set(allab)
+        K.replace_labelling_function(L)
+    if grow:
+        # the structure GROWS after construction through the public add_node / add_edge; the caller never labels the new states
+        # (they carry no atomic proposition); the structure is total again when the last operation is done
+        for op in grow['ops']:
+            if op[0] == 'node':
+                K.add_node(states[op[1]])
+            else:
+                K.add_edge(states[op[1]], states[op[2]])
+    part = case.get('relabel_partial')
+    if part:
+        # replace_labelling_function with a dict that lists only SOME states (the others carry no label from now on)
+        L = {states[int(i)]: set(dec(x) for x in ls) for i, ls in part['L'].items()}
+        if part.get('ghost'):
+            L['#ghost'] = set(a for ls in L.values() for a in ls) | {'p'}
         K.replace_labelling_function(L)
     num = {s: i for i, s in enumerate(K._next)}
     return K, states, num
@@ -369,8 +447,9 @@ def run_case(case):
             ksc = ksx(K.clone(), num)
             order_differs = ksc != ks
             ks = ksc
-        except KeyError:
-            pass               # the clone holds objects that are not K's states (identity-compared states): the contract below reports it
+        except Exception:
+            pass               # the clone holds objects that are not K's states (identity-compared states), or clone() itself fails
+                               # (e.g. on an instance of a subclass): the query below meets the same and the contract reports it
     n = len(states)
 
     def fst(i):
@@ -384,11 +463,18 @@ def run_case(case):
         back = call(lambda: tree_of(shared_parser(logic)(arg)))
         if back != ('ok', f):
             raise RuntimeError('text %r does not parse back to %r in %s (%r)' % (arg, f, logic, back))
+    elif case['mode'] == 'qtext':
+        # quoted atoms: the tree is f by the grammar (a_prop -> ESCAPED_STRING, the name is what stands between the quotes); the
+        # library's own parser is NOT asked first - a text it cannot read shows as the outcome of the query
+        arg = qtext(f, case.get('quote_all', False))
     else:
         arg = to_py_iter(f, lang_module('CTLS') if case['cls'] == 'ool' else L)
 
     def query(a):
         Fv = mkF()
+        if case.get('parser') == 'shared':
+            # (the default route builds a new parser per call; the caller may pass its own: one per logic and interpreter)
+            return guarded(lambda: L.modelcheck(K, a, parser=shared_parser(logic), F=Fv))
         if Fv is None:
             return guarded(lambda: L.modelcheck(K, a))
         return guarded(lambda: L.modelcheck(K, a, F=Fv))
@@ -446,7 +532,7 @@ def run_case(case):
         v2.add(FOREIGN)
         g = ('not', f)
         cmds.append(mcmd(logic, ks, g, Fm))
-        a3 = ftext(g) if case['mode'] == 'text' else to_py_iter(g, L)
+        a3 = ftext(g) if case['mode'] == 'text' else qtext(g, case.get('quote_all', False)) if case['mode'] == 'qtext' else to_py_iter(g, L)
         r3 = query(a3)
         if r3[0] != 'ok':
             obs['calls'].append(['negated', list(r3), 1])
@@ -545,6 +631,136 @@ def extra_cases(rng, thorough):
         cs.append(gen_case(rng, logic=logic, cls='exact', formula=f, mode='text' if i % 6 >= 3 else 'obj',
                            Fkind='none' if i % 4 else rng.choice(['empty', 'sets']), extra=rng.choice(['none', 'fair'])))
     return cs
+
+
+# ---------- the public-API channel: quoted / format-shaped atoms, subclasses, partial relabelling, growth ----------
+def rename_atoms(f, ren):
+    t = f[0]
+    if t == 'ap':
+        return ('ap', ren.get(f[1], f[1]))
+    if t in ('true', 'false'):
+        return f
+    return (t,) + tuple(rename_atoms(g, ren) for g in f[1:])
+
+
+def dup_formula(rng, atoms):
+    """a CTL* state formula in which the SAME quantified subformula g occurs twice (once under another quantifier): the second
+    elimination finds the first fresh name among the labels of the working copy and has to take a fallback name"""
+    a, b = ('ap', rng.choice(atoms)), ('ap', rng.choice(atoms))
+    g = (rng.choice('AE'), rng.choice([('X', a), ('F', a), ('G', a), ('U', a, b), ('F', ('G', a)), ('X', ('X', a)), ('or', ('X', a), b)]))
+    k = rng.randrange(7)
+    if k == 0:
+        return ('and', g, ('A', ('G', ('F', g))))
+    if k == 1:
+        return ('or', ('not', g), ('E', ('X', g)))
+    if k == 2:
+        return ('E', ('U', g, ('X', g)))
+    if k == 3:
+        return ('A', ('F', ('and', g, ('X', g))))
+    if k == 4:
+        return ('imp', ('E', ('F', g)), g)
+    if k == 5:
+        return ('E', ('X', ('A', ('G', ('or', g, ('X', g))))))
+    return ('and', g, g, ('E', ('G', ('not', g))))
+
+
+def gen_api_case(rng, i):
+    logic = LOGICS[i % 3]
+    feats = []
+    third = rng.choice(GOOD_ATOMS[2:])
+    atoms = ['p', 'q', 'p', 'q', third]
+    if logic == 'CTLS' and rng.random() < 0.45:
+        f = dup_formula(rng, atoms)
+        feats.append('same_quantified_subformula_twice')
+    else:
+        f = gen_formula(rng, logic, atoms)
+    ren = {}
+    if rng.random() < 0.65:
+        names = rng.sample(QUOTED_ATOMS, 3)
+        ren = {'p': names[0], 'q': names[1]}
+        if rng.random() < 0.5:
+            ren[third] = names[2]
+        f = rename_atoms(f, ren)
+        feats.append('format_or_escape_shaped_atoms')
+    cls = 'exact' if rng.random() < 0.88 else 'weak'
+    grow = rng.random() < 0.35
+    ctor = rng.choice(['full', 'full', 'full', 'subclass-spec', 'subclass-kwonly', 'subclass-attr'])
+    n = rng.randint(1, 5)
+    k_new = 0
+    if grow:
+        k_new = rng.randint(1, min(n, 3))
+        if k_new == n and rng.random() < 0.5 and ctor == 'full':
+            ctor = 'noargs'                       # Kripke() and everything added afterwards
+    n0 = n - k_new
+    family = rng.choice(['str', 'tuple', 'negint', 'frozenset', 'mixed', 'mixed', 'int', 'int', 'object', 'objecth'])
+    c = gen_case(rng, family=family, logic=logic, cls=cls, formula=f, mode='obj', n=n0, ctor=ctor,
+                 Fkind=rng.choice(['none', 'none', 'empty', 'sets', 'sets']), extra=rng.choice(['none', 'fresh', 'fresh', 'all', 'fair']))
+    if ctor.startswith('subclass'):
+        feats.append('kripke_' + ctor)
+    # the base labelling speaks of p and q: renamed like the formula
+    for key, ls in c['labels'].items():
+        c['labels'][key] = [enc(ren.get(dec(x), dec(x))) if type(dec(x)) is str else x for x in ls]
+    if n0 == 0:
+        c['S0'], c['relabel'] = [], False
+    if grow:
+        # k_new more states of the family, NEVER labelled by the caller: every one gets a successor (itself, an old or a new state),
+        # some get predecessors; a few transitions between old states are added as well
+        used = [dec(s) for s in c['states']]
+        if family in ('object', 'objecth'):
+            taken = set(s.i for s in used)
+            fresh = [(Site if family == 'object' else SiteH)(j) for j in rng.sample([j for j in range(12) if j not in taken], k_new)]
+        else:
+            fresh = rng.sample([s for s in FAMILIES[family] if not any(s == u and type(s) is type(u) for u in used)], k_new)
+        c['states'] += [enc(s) for s in fresh]
+        new = list(range(n0, n))
+        edges = []
+        for v in new:
+            for d in rng.sample(range(n), rng.randint(1, min(n, 2))):
+                edges.append(['edge', v, d])
+            for s in rng.sample(range(n), rng.randint(0, min(n, 2))):
+                edges.append(['edge', s, v])
+        for _ in range(rng.randint(0, 2) if n0 else 0):
+            edges.append(['edge', rng.randrange(n0), rng.randrange(n0)])
+        rng.shuffle(edges)
+        ops, seen, have = [], set(), set((a, b) for a, b in c['R'])
+        for e in edges:
+            if (e[1], e[2]) in have:
+                continue                                  # (add_edge refuses a transition that is already there)
+            have.add((e[1], e[2]))
+            for v in e[1:]:
+                if v >= n0 and v not in seen:
+                    seen.add(v)
+                    if rng.random() < 0.4:
+                        ops.append(['node', v])           # add_node first, the transitions later
+            ops.append(e)
+        c['grow'] = {'new': new, 'ops': ops}
+        for v in new:
+            c['labels'][str(v)] = []
+        if c['F'] is not None:
+            c['F'] = [sorted(set(P) | set(v for v in new if rng.random() < 0.5)) for P in c['F']]
+        feats.append('grown_with_add_node_add_edge' + ('_from_Kripke()' if ctor == 'noargs' else ''))
+    if n and rng.random() < 0.35:
+        # a partial labelling dict: each state listed with probability 0.6 (so that some state is usually missing)
+        listed = [v for v in range(n) if rng.random() < 0.6]
+        pool = [enc(a) for a in (list(ren.values()) or ['p', 'q']) + ['r']]
+        c['relabel_partial'] = {'L': {str(v): ([] if v >= n0 else list(c['labels'][str(v)])) + [a for a in pool if rng.random() < 0.3] for v in listed},
+                                'ghost': rng.random() < 0.3}
+        feats.append('partial_relabelling' + ('' if len(listed) < n else '_listing_all'))
+    # the formula channel: quoted text where every atom can be written between quotes
+    g = detuple(json.loads(json.dumps(c['formula'])))
+    if all(is_quotable(a) for a in fatoms(g)) and rng.random() < 0.55:
+        c['mode'] = 'qtext'
+        c['quote_all'] = rng.random() < 0.4
+        c['parser'] = 'shared' if rng.random() < 0.75 else 'default'
+        feats.append('quoted_text')
+    elif cls == 'exact' and all(is_good_atom(a) for a in fatoms(g)) and rng.random() < 0.3:
+        c['mode'] = 'text'
+    c['api'] = feats
+    return c
+
+
+def api_cases(rng, thorough):
+    return [gen_api_case(rng, i) for i in range(2400 if thorough else 150)]
 
 
 def corpus(rng):
@@ -1040,7 +1256,16 @@ def run(R):
               'at<i> (closed form); (e) build-ask-drop loops: 12 (thorough 60) histories of 28 (60) structures of equal size (1-4 states, same '
               'names / fresh names / fresh identity objects), each dropped before the next is built, asked the same one or two formulas '
               '(chosen so that the answer varies between the structures; object kept / object rebuilt / text; F none, [] or sets), every '
-              'round against the model'
+              'round against the model; (f) the public-API channel, 150 (thorough 2400) cases through the main pipeline (model answer, contract, '
+              'caller mutation, repeated call), features drawn independently: atoms named like format strings / escape sequences / printf '
+              'directives ({busy}, {}, x in {1,2}, {0!r}, \\xi, \\nu, C:\\new\\x, %%s, %%(p)s, 100%%, ... ; 40 names, exact class: no bracket, '
+              'quote or reserved word, also as labels of K together with the fresh names of this very formula) as objects and as QUOTED text '
+              '("..." for every non-identifier atom, in 40%% for every atom; default parser per call or one shared parser); CTL* formulas in '
+              'which the same quantified subformula occurs twice (7 patterns: the fallback fresh name); K an instance of a Kripke SUBCLASS '
+              '(one positional spec / keyword-only parameters / an extra leading parameter kept as attribute); replace_labelling_function '
+              'with a PARTIAL dict (each state listed with probability 0.6, ghost key in 30%%); structures GROWN after construction by '
+              'add_node / add_edge (1-3 new states never labelled by the caller, node first or edge first, also from Kripke() and from '
+              'subclasses, F extended to new states) - regression of fix F13; all three logics, F none / [] / sets'
               % (lo, hi))
     rng = R.rng
     depth_probe(R)
@@ -1057,6 +1282,7 @@ def run(R):
         cases.append(gen_case(rng, logic=logic, cls='exact', deep=rng.randint(lo, hi - 3),
                               mode='text' if i % 6 == 5 else 'obj', Fkind=rng.choice(['none', 'none', 'sets'])))
     cases += extra_cases(random.Random(R.seed + 1937), R.thorough)
+    cases += api_cases(random.Random(R.seed + 1941), R.thorough)
     results, cmds = [], []
     for case in cases:
         case = json.loads(json.dumps(case))
@@ -1079,6 +1305,10 @@ def run(R):
         R.count('F_' + ('None' if case['F'] is None else 'empty' if not case['F'] else 'sets'))
         R.count('mutation_' + case['mut'])
         R.count('ctor_' + case.get('ctor', 'full'))
+        for ft in case.get('api', []):
+            R.count('api_' + ft)
+        if 'api' in case:
+            R.count('api_cases')
         if len(case['states']) <= 1:
             R.count('structures_with_%d_states' % len(case['states']))
         wmax = max(len(g) - 1 for g in subformulas(f))
@@ -1108,6 +1338,11 @@ def run(R):
                 R.sample({'states': [repr(dec(s)) for s in case['states']], 'labels': {k: [repr(dec(x)) for x in v] for k, v in case['labels'].items()},
                           'query': '%s.modelcheck(K, %s %s, F=%s)' % (case['logic'], case['mode'], fstr(f)[:200], case['F']),
                           'class': case['cls'], 'answers(numbered)': obs['calls'], 'caller_mutation': case['mut']}, limit=5)
+    R.cov['public_api_channel'] = {'cases': sum(1 for c, _, _, _ in results if 'api' in c),
+                                   'quoted_text_cases_with_a_backslash_atom': sum(1 for c, _, _, _ in results if c['mode'] == 'qtext' and '\\\\' in json.dumps(c['formula'])),
+                                   'cases_with_a_brace_or_percent_atom': sum(1 for c, _, _, _ in results if 'api' in c and any(ch in json.dumps(c['formula']) for ch in '{}%')),
+                                   'grown_states_total': sum(len(c['grow']['new']) for c, _, _, _ in results if c.get('grow')),
+                                   'states_left_out_of_a_partial_labelling': sum(len(c['states']) - len(c['relabel_partial']['L']) for c, _, _, _ in results if c.get('relabel_partial'))}
     R.cov['deep_formula_heights_used'] = {'min': min(depths) if depths else None, 'max': max(depths) if depths else None,
                                           'count': sum(depths.values())}
 
